@@ -6,7 +6,7 @@ from nvsa import cast
 from nvsa.report import AnalysisError
 
 from ._c14_c import View, _calls, _tail_shape, byte_assembly, byte_table, rmw_core
-from ._c14_common import (LITERAL_BITS, alpha_print, flat, is_int, is_min, name_width, res, return_type, then_returns, times8, type_bytes, upper_bound,
+from ._c14_common import (rule_f16_special, rule_f16_pack_order, LITERAL_BITS, alpha_print, flat, is_int, is_min, name_width, res, return_type, then_returns, times8, type_bytes, upper_bound,
                           zero_fill_guard_ok, early_exit_before)
 
 THIS = ("this",)
@@ -145,6 +145,102 @@ def _dst_capacity(d, v: View):
     return None, None, True
 
 
+
+# ---- helper methods and equivalent spellings ----------------------------------------------------------------------------------
+PRIMITIVE_METHODS = {SATM, "copyTo", "size", "getU8", "getU16", "getU32", "getU64", "setUxx", "setZeros", "subspan", "aligned_ref", "aligned_ptr"}
+
+
+def _norm(t):
+    """one spelling for min written as a conditional and for the remaining-bits idiom:
+       (a < b) ? a : b  ->  min(a, b);     (a < b) ? 0 : a - b  ->  a - min(a, b)"""
+    if not isinstance(t, tuple) or not t:
+        return t
+    if t and isinstance(t[0], str):
+        t = tuple(_norm(x) if isinstance(x, tuple) else x for x in t)
+    else:
+        return tuple(_norm(x) if isinstance(x, tuple) else x for x in t)
+    if t[0] == "cond" and t[1][0] == "bin" and t[1][1] in ("<", "<=", ">", ">="):
+        op, a, b = t[1][1], t[1][2], t[1][3]
+        if op in (">", ">="):
+            a, b, op = b, a, "<" if op == ">" else "<="          # a < b
+        yes, no = t[2], t[3]
+        if (yes, no) in ((a, b),):
+            return ("call", "min", (a, b))
+        if (yes, no) == (b, a):
+            return ("call", "max", (a, b))
+        if is_int(yes, 0) and no == ("bin", "-", a, b):
+            return ("bin", "-", a, ("call", "min", (a, b)))        # a < b ? 0 : a - b
+        if is_int(no, 0) and yes == ("bin", "-", b, a):
+            return ("bin", "-", b, ("call", "min", (b, a)))        # a < b ? b - a : 0
+    return t
+
+
+def _strip_self(t):
+    """`self.member` where `self` is `*this` (CRTP base) is the member itself"""
+    if not isinstance(t, tuple) or not t:
+        return t
+    if t[0] == "mem" and t[1] in (("ref", "self"), ("un", "*", ("this",)), ("this",)):
+        return ("ref", t[2])
+    return tuple(_strip_self(x) if isinstance(x, tuple) else x for x in t)
+
+
+def method_expr(ms, name: str, args, depth: int = 0):
+    """the value a simple const helper method returns, as one expression over its arguments (None when the method is not simple:
+    anything but local declarations, guard-returns and a final return)"""
+    cands = [k for k in ms if k.split("::")[-1].split("/")[0] == name and len(cast.param_types(ms[k])) == len(args)]
+    if len(cands) > 1:
+        base = [k for k in cands if k.startswith("any_bitspan::")]       # the CRTP base both span classes derive from
+        cands = base if len(base) == 1 else cands
+    if len(cands) != 1 or depth > 3:
+        return None
+    v = View(cands[0], ms[cands[0]])
+    env = dict(zip(v.params, args))
+    guards = []
+    result = None
+    for s in v.stmts:
+        k = s.node.get("kind")
+        if k == "DeclStmt" and not s.guards:
+            for nm, _ty, init in cast.decls_of(s):
+                if init is None:
+                    return None
+                env[nm] = _strip_self(cast.substitute(init, env))
+            continue
+        if k == "IfStmt" and not s.guards:
+            r = then_returns(s.node)
+            if r is None:
+                return None
+            guards.append((_strip_self(cast.substitute(cast.term(s.node["inner"][0]), env)), _strip_self(cast.substitute(r, env))))
+            continue
+        if s.guards:
+            continue      # the body of a guard-return, handled above
+        t = cast.stmt_term(s)
+        if t is None:
+            continue
+        if t[0] == "un" and t[1] == "return":
+            result = _strip_self(cast.substitute(t[2], env))
+            continue
+        if t[0] == "call" and "assert" in str(t[1]).lower():
+            continue
+        return None
+    if result is None:
+        return None
+    for c, r in reversed(guards):
+        result = ("cond", c, r, result)
+    return _norm(inline_helpers(result, ms, depth + 1))
+
+
+def inline_helpers(t, ms, depth: int = 0, keep=PRIMITIVE_METHODS):
+    """replace calls of simple helper methods on `this` (other than the primitives the rules talk about) by what they compute"""
+    if not isinstance(t, tuple) or not t:
+        return t
+    t = tuple(inline_helpers(x, ms, depth, keep) if isinstance(x, tuple) else x for x in t)
+    if t and t[0] == "mcall" and t[1] == THIS and t[2] not in keep:
+        e = method_expr(ms, t[2], list(t[3]), depth)
+        if e is not None:
+            return e
+    return t
+
+
 def rule_get(ms, clamp_present: bool) -> typing.List[dict]:
     out = []
     sat = {SATM}
@@ -157,7 +253,9 @@ def rule_get(ms, clamp_present: bool) -> typing.List[dict]:
             for c in _mcalls(t):
                 if c[2] == "copyTo" and c[1] == THIS and len(c[3]) == 2:
                     env = v.env(s.index)
-                    n = cast.substitute(c[3][1], env)
+                    n = _norm(inline_helpers(cast.substitute(c[3][1], env), ms))
+                    while n[0] == "call" and n[1] in ("static_cast", "uint8_t") and len(n[2]) == 1:
+                        n = n[2][0]
                     site_sat = n[0] == "mcall" and n[2] == SATM
                     R = "R-C14-GET-SAT"
                     out.append(res(R, k, f"{k}: read length is bounded by the source size", site_sat or clamp_present,
@@ -237,7 +335,10 @@ def rule_tail(ms) -> typing.List[dict]:
     ok, detail = False, "no return"
     for s, t in v.terms():
         if t[0] == "un" and t[1] == "return":
-            ok, detail = _tail_shape(cast.substitute(t[2], v.env(s.index)), DATA_SIZE, OFFSET, ln)
+            r_ = cast.substitute(t[2], v.env(s.index))
+            # `size()` is the remaining-bits helper of the base class: seen through, and min / tail idioms in one spelling
+            r_ = _norm(inline_helpers(r_, ms, keep=PRIMITIVE_METHODS - {"size"}))
+            ok, detail = _tail_shape(r_, DATA_SIZE, OFFSET, ln)
     out.append(res(R, k, f"{k}: min(length, size*8 - min(size*8, offset))", ok, detail))
     k = "any_bitspan::size"
     if k not in ms:
@@ -458,6 +559,7 @@ def analyse(objs, text: str, point):
     out += rule_get(ms, clamp)
     out += rule_shift_width(ms)
     out += rule_tail(ms)
+    out += rule_narrow(ms)
     out += rule_rmw(ms)
     out += rule_byte_order(ms, point[0])
     out += rule_zero_span(ms)
@@ -467,4 +569,54 @@ def analyse(objs, text: str, point):
     for n in ("float16Pack", "float16Unpack"):
         if n in ms:
             prints[n] = alpha_print(ms[n])
+    if "float16Unpack" in ms:
+        out += rule_f16_special(ms["float16Unpack"], "float16Unpack")
+    if "float16Pack" in ms:
+        out += rule_f16_pack_order(ms["float16Pack"], "float16Pack")
     return out, prints, len(ms)
+
+
+# ---- narrowing of size-derived quantities ---------------------------------------------------------------------------------------
+NARROW_BITS = {"uint8_t": 8, "unsigned char": 8, "std::uint8_t": 8, "uint16_t": 16, "std::uint16_t": 16, "unsigned short": 16}
+
+
+def rule_narrow(ms) -> typing.List[dict]:
+    """R-C14-TAIL (narrowing clause): the number of bits left in the buffer is a size_t quantity.  An explicit cast of a value derived
+    from it (size(), data_.size(), the offset, the saturation helper applied to an unbounded length) to an 8- or 16-bit type is
+    lossless only when the operand is already bounded by a constant that fits; otherwise the count is taken modulo 2**8 / 2**16 and
+    reads of large buffers return zeros for bits that are present."""
+    R = "R-C14-TAIL"
+    out = []
+    sat = {SATM}
+    n_casts = 0
+    for k, fn in ms.items():
+        if not (k.startswith("const_bitspan::") or k.startswith("bitspan::") or k.startswith("any_bitspan::")):
+            continue
+        v = View(k, fn)
+
+        def visit(n):
+            nonlocal n_casts
+            if not isinstance(n, dict):
+                return
+            kind = n.get("kind")
+            if kind in ("CXXStaticCastExpr", "CStyleCastExpr", "CXXFunctionalCastExpr"):
+                ty = (n.get("type") or {}).get("qualType", "").replace("const ", "")
+                bits = NARROW_BITS.get(ty)
+                inner = n.get("inner") or []
+                if bits is not None and inner:
+                    t = _norm(inline_helpers(cast.term(inner[-1]), ms, keep=PRIMITIVE_METHODS))
+                    shown = cast.show(t)
+                    size_derived = any(x in shown for x in ("size()", SATM))      # bits / bytes left in the buffer (not offset % n, which is bounded by n)
+                    if size_derived:
+                        n_casts += 1
+                        ub = upper_bound(t, v.params, sat)
+                        ok = ub is not None and ub < (1 << bits)
+                        out.append(res(R, k, f"{k}: `static_cast<{ty}>({shown[:60]})` narrows a value that is already bounded", ok,
+                                       f"the operand is a buffer-size quantity without a visible bound below 2**{bits}: for buffers with 2**{bits} or more bits left the "
+                                       "count wraps and bits that are present are read as zero"))
+            for c in n.get("inner") or []:
+                visit(c)
+        visit(fn)
+    if n_casts == 0:
+        out.append(res(R, "const_bitspan", "no buffer-size quantity is narrowed to an 8/16-bit type", True, ""))
+    return out
